@@ -347,6 +347,9 @@ type c27Transport struct {
 	mu  sync.Mutex
 	put map[string]c27PutFault // one scripted fault for the next PutFile of a path
 	rec []c27RecFault          // scripted faults for the next Reconcile calls, in order
+	// recByPath: a fault for the next Reconcile whose batch asks about that path
+	// (independent of paging), used by the directed sub-generator
+	recByPath map[string]c27RecFault
 }
 
 var errC27Dead = errors.New("c27: spoke process is dead")
@@ -450,7 +453,13 @@ func (t *c27Transport) Reconcile(ctx context.Context, hubID string, pending []*L
 	}
 	t.mu.Lock()
 	var f c27RecFault
-	if len(t.rec) > 0 {
+	for _, e := range pending {
+		if pf, ok := t.recByPath[e.Path]; ok && f.Kind == "" {
+			f = pf
+			delete(t.recByPath, e.Path)
+		}
+	}
+	if f.Kind == "" && len(t.rec) > 0 {
 		f, t.rec = t.rec[0], t.rec[1:]
 	}
 	t.mu.Unlock()
@@ -793,6 +802,7 @@ func (r *c27Rig) run(t *rapid.T, faults bool) {
 	r.tr.mu.Lock()
 	r.tr.put = map[string]c27PutFault{}
 	r.tr.rec = nil
+	r.tr.recByPath = map[string]c27RecFault{}
 	r.tr.mu.Unlock()
 	crashAt := 0
 	if faults {
@@ -835,6 +845,11 @@ func (r *c27Rig) run(t *rapid.T, faults bool) {
 			r.faulted = true
 		}
 	}
+	r.exec(plan, crashAt, faults)
+}
+
+// exec performs one Agent.Run under whatever fault plan is installed in the transport.
+func (r *c27Rig) exec(plan []string, crashAt int, faults bool) {
 	r.gate.arm(crashAt)
 	res, err := r.agent.Run(context.Background())
 	crashed := r.gate.isCrashed()
@@ -996,15 +1011,73 @@ func (r *c27Rig) vanishHub(t *rapid.T) {
 	if len(c) == 0 {
 		return
 	}
-	src := c[rapid.IntRange(0, len(c)-1).Draw(t, "hubVanish")]
+	r.vanishHubPath(c[rapid.IntRange(0, len(c)-1).Draw(t, "hubVanish")])
+}
+
+func (r *c27Rig) vanishHubPath(src string) {
 	rows := r.ledgerRows()
 	r.must(r.hubBE.Delete(context.Background(), NamespacedPath(c27SpokeID, src)), "delete hub file")
 	r.hubVanishCount[src]++
 	if rows[src].State == string(StateSynced) {
-		r.hubGone[src] = true // marked synced while the hub held it; the later loss is the hub operator's
+		r.hubGone[src] = true
 	}
 	r.faulted = true
 	r.note("vanishHubFile %s (ledger state %q)", src, rows[src].State)
+}
+
+// scripted installs an explicit fault plan and runs one pass.
+func (r *c27Rig) scripted(put map[string]c27PutFault, recByPath map[string]c27RecFault, label string) {
+	r.tr.mu.Lock()
+	r.tr.put, r.tr.rec, r.tr.recByPath = put, nil, recByPath
+	r.tr.mu.Unlock()
+	r.faulted = true
+	r.exec([]string{label}, 0, true)
+}
+
+// staleConfirm is a directed sub-history around ONE file, against the same
+// long-lived Receiver/Reconciler/HubIndex: the upload commits but its ack is lost;
+// the next pass's reconcile is answered by the hub ("present") but the answer is
+// lost or the spoke dies before MarkSynced; the hub copy then disappears; a
+// fault-free pass follows. Whatever the hub remembers from its earlier answer,
+// the file may end synced only if the hub holds it again.
+func (r *c27Rig) staleConfirm(t *rapid.T) {
+	rows := r.ledgerRows()
+	hub, rc := r.hubFiles(), r.receipts()
+	f := r.pick(t, "staleConfirmTarget", func(f *c27File) bool {
+		if !f.OnSpoke || f.Compacted {
+			return false
+		}
+		if _, isForeign := r.foreign[f.Path]; isForeign {
+			return false
+		}
+		if _, known := rc[f.Path]; known {
+			return false
+		}
+		if _, onHub := hub[NamespacedPath(c27SpokeID, f.Path)]; onHub {
+			return false
+		}
+		row, tracked := rows[f.Path]
+		return !tracked || (row.State == string(StatePending) && row.BytesSent == 0)
+	})
+	if f == nil {
+		r.addFile(t)
+		f = r.files[r.order[len(r.order)-1]]
+	}
+	verifkit.Class("directed:stale-confirm")
+	r.note("directed staleConfirm on %s", f.Path)
+	r.scripted(map[string]c27PutFault{f.Path: {Kind: "dropAfter"}}, nil, f.Path+":dropAfter")
+	if b, ok := r.hubFiles()[NamespacedPath(c27SpokeID, f.Path)]; !ok || c27SHA(b) != f.SHA {
+		return // the upload did not commit (attempt cap, earlier state): nothing to direct
+	}
+	kind := rapid.SampledFrom([]string{"dropAfter", "dropAfter", "crashAfter"}).Draw(t, "staleConfirmLoss")
+	r.scripted(nil, map[string]c27RecFault{f.Path: {Kind: kind}}, "reconcile-with:"+f.Path+":"+kind)
+	if rows = r.ledgerRows(); rows[f.Path].State != string(StatePending) {
+		return
+	}
+	if rapid.IntRange(0, 9).Draw(t, "staleConfirmVanish") < 8 {
+		r.vanishHubPath(f.Path)
+	}
+	r.run(t, false)
 }
 
 func (r *c27Rig) pruneSynced() {
@@ -1028,7 +1101,7 @@ func c27History(t *rapid.T) {
 	steps := rapid.IntRange(4, verifkit.Scale(14, 20)).Draw(t, "steps")
 	for i := 0; i < steps; i++ {
 		act := rapid.SampledFrom([]string{"add", "add", "add", "run", "run", "run", "run", "run", "vanishSpoke", "compactSpoke", "compactSpoke",
-			"compactHub", "vanishHub", "sweepStaging", "foreign", "requeue", "dismiss", "restart", "prune"}).Draw(t, "action")
+			"compactHub", "vanishHub", "sweepStaging", "foreign", "requeue", "dismiss", "restart", "prune", "staleConfirm", "staleConfirm"}).Draw(t, "action")
 		switch act {
 		case "add":
 			for j, n := 0, rapid.IntRange(1, 3).Draw(t, "nFiles"); j < n; j++ {
@@ -1068,6 +1141,8 @@ func c27History(t *rapid.T) {
 			r.note("restart (clean)")
 		case "prune":
 			r.pruneSynced()
+		case "staleConfirm":
+			r.staleConfirm(t)
 		}
 		r.check("after " + act)
 	}
